@@ -612,5 +612,8 @@ func rawCases(pool map[string][]string) []*Case {
 		// while-getline loops: from a file (NR untouched) and from the main input inside the main loop
 		raw("while getline < file", `BEGIN { while ((getline line < "k2") > 0) n++; print n, NR }`, nil, nil, "5 0\n"),
 		raw("while getline drains the main input", `NR == 1 { while ((getline x) > 0) last = x; print NR, FNR, FILENAME, $0, last }`, []string{"k1", "k2"}, nil, "7 5 k2 p q b x\n"),
+		// getline < "-" reads stdin through a scanner of its own, NR untouched (in a history: every execution reads ITS stdin)
+		raw("while getline < \"-\" reads stdin", `BEGIN { while ((getline l < "-") > 0) { n++; last = l }; print n + 0, NR, last }`, nil, []string{"s1", "s2 s3"}, "2 0 s2 s3\n"),
+		raw("getline < \"-\" stops in the middle of stdin", `BEGIN { getline l < "-"; print l, NR; exit 2 }`, nil, []string{"s1", "s2"}, "s1 0\n!status: 2"),
 	}
 }
